@@ -150,10 +150,10 @@ PLAN["C10"] = {
 }
 
 PLAN["C16"] = {
-    "quick": ["eq_q_"],
+    "quick": ["eq_q_", "tbl_q_eq_"],
     "thorough": ["eq_t_"],
     "bounds": {"quick": "rows<=2", "thorough": "rows<=3, 4-component registry"},
-    "outside": ["Archetypes::eq / World::eq above Archetype::component_eq and the derived slot comparison", "worlds beyond the shapes"],
+    "outside": ["Archetypes::eq / World::eq above Archetype::component_eq and the derived slot comparison, except that tables with different numbers of (rowless) archetypes compare unequal (tbl_q_eq_)", "worlds beyond the shapes"],
     "level_text": "Bounded model checking: for two symbolic archetypes of one shape, component_eq(a,b) holds exactly when identifier columns and all value columns are equal row by row (reference model), and is symmetric and reflexive.",
     "level_note": KANI_NOTE + ARCH_NOTE,
 }
